@@ -205,7 +205,15 @@ class _RunnerIterator(iter_utils.MultiplexIterator[_ValueT]):
       batch_output = super().__next__()
       self.batch_index += 1
       if self._with_agg:
-        self.agg_state = self._runner.update_state(self.agg_state, batch_output)
+        try:
+          self.agg_state = self._runner.update_state(
+              self.agg_state, batch_output
+          )
+        except Exception:
+          # The iteration cannot go on: ends the worker threads and closes the
+          # stages (e.g., a sink) as when drawing the next batch fails.
+          self.maybe_stop()
+          raise
       logging.debug(
           'chainable: %s', f'"{self.name}" batch cnt {self.batch_index}.'
       )
@@ -522,6 +530,11 @@ class _ChainedRunnerIterator(Iterable[_ValueT]):
           'chainable: %s', f'"{name}" iterator returned a {type(returned)}'
       )
       raise StopIteration(returned) if returned else e
+    except Exception:
+      # A failing stage only stops itself, the upstream stages have to be
+      # stopped as well.
+      self.maybe_stop()
+      raise
 
   def __iter__(self) -> Iterator[_ValueT]:
     return self
